@@ -94,3 +94,272 @@ def P(t, ts, payload):
 
 def bcast(cfg, evs, cls):
     return Case("c05.bcast %s %s" % (cfg, ";".join(evs)), cls=cls)
+
+
+# --------------------------------------------------------------------------
+# generators
+RESTS = [lambda n: bytes(n), lambda n: (b"hvc1" + bytes(n))[:n], lambda n: (b"\x01" + bytes(n))[:n],
+         lambda n: (b"hvc1\x00\x00\x10\x00\x00\x00\x01\x26" + bytes(n))[:n], lambda n: b"\xff" * n]
+
+
+def short_payloads(types=(8, 9, 18), lens=range(0, 13), rests=range(len(RESTS))):
+    for t in types:
+        for n in lens:
+            if n == 0:
+                yield t, b""
+                continue
+            for fb in FIRST_BYTES:
+                for r in rests:
+                    yield t, bytes([fb]) + RESTS[r](n - 1)
+
+
+PREAMBLE_AVC = [P(9, 0, AVC_SH), P(8, 0, AAC_SH), P(9, 0, AVC_IDR), P(8, 10, AAC_RAW)]
+PREAMBLE_HEVC = [P(9, 0, HEVC_SH), P(8, 0, AAC_SH), P(9, 0, HEVC_IDR)]
+PREAMBLE_EHEVC = [P(9, 0, EHEVC_SH), P(8, 0, AAC_SH), P(9, 0, EHEVC_KEY)]
+PREAMBLES = [PREAMBLE_AVC, PREAMBLE_HEVC, PREAMBLE_EHEVC]
+JOINS = ["Jr:1", "Jf:2", "Jw:3", "Jt:4", "Js:5"]
+
+
+def nal_len_mutations(b, off=5):
+    """every 4-byte AVCC length field of frame payload b replaced by boundary values"""
+    out = []
+    pos = off
+    while pos + 4 <= len(b):
+        n = int.from_bytes(b[pos:pos + 4], "big")
+        rem = len(b) - pos - 4
+        for v in (0, 1, max(rem - 1, 0), rem, rem + 1, 0x7fffffff, 0x80000000, 0xffffffff):
+            out.append(b[:pos] + v.to_bytes(4, "big") + b[pos + 4:])
+        if n == 0 or pos + 4 + n > len(b):
+            break
+        pos += 4 + n
+    return out
+
+
+def mutate(rng, b):
+    b = bytearray(b)
+    r = rng.random()
+    if r < 0.3 and len(b):
+        b = b[:rng.randrange(len(b) + 1)]
+    elif r < 0.6 and len(b):
+        for _ in range(rng.randrange(1, 4)):
+            i = rng.randrange(len(b))
+            b[i] = rng.choice([0, 1, 2, 3, 4, 0xff, 0x80, 0x7f, rng.randrange(256)])
+    elif r < 0.8:
+        b += bytes(rng.randrange(256) for _ in range(rng.randrange(1, 8)))
+    else:
+        if len(b) > 9:
+            i = rng.randrange(5, len(b) - 3)
+            b[i:i + 4] = rng.choice([b"\x00\x00\x00\x00", b"\xff\xff\xff\xff", b"\x00\x00\x00\x01",
+                                     (len(b) - i - 4).to_bytes(4, "big"), (len(b) - i - 3).to_bytes(4, "big")])
+    return bytes(b)
+
+
+def rand_payload(rng, t):
+    r = rng.random()
+    if r < 0.2:
+        n = rng.randrange(0, 13)
+        if n == 0:
+            return b""
+        fb = rng.choice(FIRST_BYTES)
+        rest = bytes(rng.choice([0, 1, 2, 3, 0x68, 0x76, 0x63, 0x31, rng.randrange(256)]) for _ in range(n - 1))
+        return bytes([fb]) + rest
+    pool = VALID_VIDEO if t == 9 else VALID_AUDIO if t == 8 else VALID_META
+    b = rng.choice(pool)
+    if r < 0.3 and t == 9:
+        # a large frame: several nals, one of them beyond the RTP payload size
+        nals = [bytes([rng.choice([0x65, 0x41, 0x06, 0x09, 0x67, 0x68, 0x26, 0x02, 0x40, 0x42, 0x44, 0x4e, 0x46, 0x1c, 0x18, 0x62])]) +
+                bytes(rng.randrange(256) for _ in range(rng.choice([0, 1, 3, 40, 1198, 1199, 1200, 1201, 2500])))
+                for _ in range(rng.randrange(1, 4))]
+        hdr = rng.choice([bytes.fromhex("1701000000"), bytes.fromhex("2701000010"), bytes.fromhex("1c01000000"), bytes.fromhex("2c01000000"),
+                          bytes([0x91]) + b"hvc1" + b"\x00\x00\x00", bytes([0xa3]) + b"hvc1"])
+        return hdr + avcc(*nals)
+    if r < 0.65:
+        return b
+    return mutate(rng, b)
+
+
+def rand_cfg(rng, dummy_ok=True):
+    bits = []
+    full = rng.random() < 0.5
+    for k in ["re", "fe", "te", "he", "se", "rf", "rm", "hk", "wk"]:
+        if full or rng.random() < 0.5:
+            bits.append(k + "=1")
+    if rng.random() < 0.6:
+        bits += ["rg=%d" % rng.choice([1, 2]), "fg=1", "tg=1"]
+    if dummy_ok and rng.random() < 0.3:
+        bits += ["da=1", "dw=%d" % rng.choice([0, 100, 150])]
+    return ",".join(bits) or "re=0"
+
+
+def rand_history(rng, joins=True, maxlen=14, start=None):
+    evs = []
+    ts = start if start is not None else rng.choice([0, 0, 0, 1000, 0xfffffff0, 0x7ffffff0])
+    js = list(JOINS) + ["Js:6", "Jr:7", "Jf:8"]
+    for _ in range(rng.randrange(1, maxlen)):
+        if joins and rng.random() < 0.25 and js:
+            evs.append(js.pop(rng.randrange(len(js))))
+        t = rng.choice([8, 9, 9, 9, 18])
+        evs.append(P(t, ts & 0xffffffff, rand_payload(rng, t)))
+        ts += rng.choice([0, 0, 20, 40, 40, 400, 3500, 12000, 0xfffffff0, 0x80000000] if rng.random() < 0.3 else [0, 20, 23, 40])
+    return evs
+
+
+def stream_history(rng, n=12):
+    """a mostly valid stream: headers first, then frames"""
+    codec = rng.choice(["avc", "hevc", "ehevc", "audio-only", "g711", "opus"])
+    evs = []
+    ts = rng.choice([0, 1000])
+    if rng.random() < 0.5:
+        evs.append(P(18, ts, rng.choice(VALID_META)))
+    if codec == "avc":
+        evs += [P(9, ts, rng.choice([AVC_SH, AVC_SH2]))]
+    elif codec == "hevc":
+        evs += [P(9, ts, HEVC_SH)]
+    elif codec == "ehevc":
+        evs += [P(9, ts, EHEVC_SH)]
+    if codec in ("avc", "hevc", "ehevc", "audio-only") and rng.random() < 0.8:
+        evs += [P(8, ts, rng.choice([AAC_SH, AAC_SH_LONG]))]
+    for i in range(n):
+        ts += rng.choice([20, 23, 40])
+        r = rng.random()
+        if codec in ("g711", "opus"):
+            evs.append(P(8, ts, {"g711": rng.choice([G711A, G711U]), "opus": OPUS}[codec]))
+            if r < 0.5:
+                evs.append(P(9, ts, rng.choice([AVC_SH, AVC_IDR, AVC_P])))
+        elif r < 0.4:
+            evs.append(P(8, ts, AAC_RAW if rng.random() < 0.9 else bytes.fromhex("af01") + bytes(rng.randrange(256) for _ in range(rng.choice([1, 2, 300])))))
+        else:
+            pool = {"avc": [AVC_IDR, AVC_IDR_PS, AVC_P, AVC_P], "hevc": [HEVC_IDR, HEVC_IDR_PS, HEVC_P, HEVC_P],
+                    "ehevc": [EHEVC_KEY, EHEVC_KEYX, EHEVC_P, EHEVC_P], "audio-only": [AVC_P]}[codec]
+            evs.append(P(9, ts, rng.choice(pool)))
+    return evs
+
+
+def avc_seq_header(sps, pps):
+    return bytes.fromhex("17000000000164001fffe1") + len(sps).to_bytes(2, "big") + sps + b"\x01" + len(pps).to_bytes(2, "big") + pps
+
+
+def hevc_seq_header(vps, sps, pps, enhanced=False):
+    head = (bytes([0x90]) + b"hvc1") if enhanced else bytes.fromhex("1c00000000")
+    rec = HEVC_SH[5:27] + b"\x03"
+    for t, d in ((0x20, vps), (0x21, sps), (0x22, pps)):
+        rec += bytes([t, 0, 1]) + len(d).to_bytes(2, "big") + d
+    return head + rec
+
+
+AVC_SPS = bytes.fromhex("2764001fac5680b40a19")
+AVC_SPS2 = bytes.fromhex("67640020acd940c029b011000003000100000300320f183196")
+AVC_PPS = bytes.fromhex("28ee3cb0")
+HEVC_VPS = bytes.fromhex("40010c01ffff01600000030090000003000003003fba0240")
+HEVC_SPS = bytes.fromhex("42010101600000030090000003000003003fa005020171f2e5ba4a4c2f010100000300010000030 00f08".replace(" ", ""))
+HEVC_PPS = bytes.fromhex("4401c073c18927")
+F13_AVC_SPS = bytes.fromhex("6742001eff")     # every remaining bit is the 1 of ue(0): the last zero-width read sits at the end of the buffer
+
+
+def sps_tail_cases():
+    """sequence headers that are well formed as records but whose SPS stops early / ends in 1-bits"""
+    for sps in (AVC_SPS, AVC_SPS2):
+        for cut in range(0, len(sps) + 1):
+            for tail in (b"", b"\xff", b"\x80", b"\x00"):
+                yield avc_seq_header(sps[:cut] + tail, AVC_PPS)
+    for cut in range(0, len(HEVC_SPS) + 1):
+        for tail in (b"", b"\xff", b"\x80"):
+            yield hevc_seq_header(HEVC_VPS, HEVC_SPS[:cut] + tail, HEVC_PPS)
+            yield hevc_seq_header(HEVC_VPS, HEVC_SPS[:cut] + tail, HEVC_PPS, enhanced=True)
+    yield avc_seq_header(F13_AVC_SPS, AVC_PPS)
+
+
+def drop_empty(evs):
+    """the remuxers sit behind the group's empty-payload gate"""
+    return [e for e in evs if not e.endswith(":-")]
+
+
+def gen_cases(tier, rng):
+    quick = tier != "thorough"
+    # (0) record-level valid sequence headers whose SPS is cut at every byte / ends in 1-bits (F-13 neighbourhood)
+    for b in sps_tail_cases():
+        yield bcast(ALL_ON, JOINS + [P(9, 0, b), P(9, 40, AVC_P)], "bcast-sps-tail")
+        yield Case("c05.rtsp 0 %s" % ";".join([P(9, 0, b), P(8, 0, AAC_SH), P(9, 40, AVC_IDR)]), cls="rtsp-sps-tail")
+        yield Case("c05.ts %s" % ";".join([P(9, 0, b), P(8, 0, AAC_SH), P(9, 40, AVC_IDR)]), cls="ts-sps-tail")
+    # (1) helpers of t_rtmp.go, exhaustive on short payloads
+    for t, b in short_payloads():
+        yield Case("c05.cls %d %s" % (t, hex_tok(b)), cls="cls-short")
+    for b in VALID_VIDEO + VALID_AUDIO + VALID_META:
+        for t in (8, 9):
+            yield Case("c05.cls %d %s" % (t, hex_tok(b)), cls="cls-valid")
+    # (2) the same short payloads through the whole fan-out, every output on, consumers of every kind:
+    #     first message of a stream / after a stream start that leaves every consumer waiting for a key frame
+    pre_wait = [P(9, 0, AVC_SH), P(8, 0, AAC_SH)] + JOINS
+    rests = range(len(RESTS)) if not quick else (0, 3)
+    for t, b in short_payloads(types=(8, 9), rests=rests):
+        yield bcast(ALL_ON, JOINS + [P(t, 0, b)], "bcast-short-first")
+        yield bcast(ALL_ON, pre_wait + [P(t, 40, b)], "bcast-short-waiting")
+    for t, b in short_payloads(types=(8, 9), rests=(0, 3), lens=range(0, 10)):
+        yield bcast(ALL_ON + ",da=1,dw=0", [P(9, 0, AVC_P)] + JOINS + [P(t, 40, b)], "bcast-short-dummy")
+        if len(b):
+            yield Case("c05.ts %s" % ";".join([P(8, 0, AAC_SH), P(9, 0, AVC_SH), P(t, 40, b)]), cls="ts-short")
+            yield Case("c05.rtsp 0 %s" % ";".join([P(8, 0, AAC_SH), P(9, 0, AVC_SH), P(t, 40, b)]), cls="rtsp-short")
+    for b in [b"", b"\x02", b"\x02\x00", b"\x02\x00\x0aonMetaData", b"\x02\x00\x0aonMetaData\x03", b"\x02\x00\x0aonMetaData\x08\x00\x00",
+              b"\x03\x00\x00\x09", b"\x0c\xff\xff\xff\xff"]:
+        yield bcast(ALL_ON, JOINS + [P(18, 0, b)], "bcast-short-first")
+    # (3) truncations of valid messages at every offset, in several stream contexts
+    for sample in VALID_VIDEO + VALID_AUDIO + VALID_META:
+        t = 9 if sample in VALID_VIDEO else 8 if sample in VALID_AUDIO else 18
+        step = 1 if (not quick or len(sample) <= 48) else 3
+        for cut in list(range(0, len(sample), step)) + [len(sample)]:
+            b = sample[:cut]
+            yield bcast(ALL_ON, JOINS + [P(t, 0, b), P(9, 40, AVC_P)], "bcast-trunc-first")
+            for pre in PREAMBLES:
+                yield bcast(ALL_ON, pre[:2] + JOINS + pre[2:] + [P(t, 40, b)], "bcast-trunc-mid")
+            if len(b):
+                yield Case("c05.ts %s" % ";".join(PREAMBLE_AVC[:2] + [P(t, 40, b), P(9, 80, AVC_IDR)]), cls="ts-trunc")
+                yield Case("c05.rtsp 0 %s" % ";".join([P(t, 0, b)] + PREAMBLE_AVC + [P(t, 40, b)]), cls="rtsp-trunc")
+    # (4) NAL length fields: zero, one short, exact, one past the end, huge
+    for sample in [AVC_IDR, AVC_IDR_PS, AVC_P, HEVC_IDR, HEVC_IDR_PS, HEVC_P]:
+        for b in nal_len_mutations(sample):
+            pre = PREAMBLE_AVC if sample[0] & 0x0f == 7 else PREAMBLE_HEVC
+            yield bcast(ALL_ON, pre + JOINS + [P(9, 40, b)], "bcast-nal-len")
+            yield Case("c05.ts %s" % ";".join(pre + [P(9, 40, b)]), cls="ts-nal-len")
+            yield Case("c05.rtsp 0 %s" % ";".join(pre + [P(9, 40, b)]), cls="rtsp-nal-len")
+    for sample, off in [(EHEVC_KEY, 8), (EHEVC_KEYX, 5), (EHEVC_P, 8)]:
+        for b in nal_len_mutations(sample, off):
+            yield bcast(ALL_ON, PREAMBLE_EHEVC + JOINS + [P(9, 40, b)], "bcast-nal-len")
+            yield Case("c05.ts %s" % ";".join(PREAMBLE_EHEVC + [P(9, 40, b)]), cls="ts-nal-len")
+            yield Case("c05.rtsp 0 %s" % ";".join(PREAMBLE_EHEVC + [P(9, 40, b)]), cls="rtsp-nal-len")
+    # (5) timestamps: huge, equal, backward, around the 32-bit wrap; dummy audio
+    tss = [0, 1, 21, 22, 150, 151, 9999, 10000, 10001, 10022, 65535, 0x7fffffff, 0x80000000, 0xfffffff0, 0xffffffea, 0xfffffffe, 0xffffffff]
+    for wait in (0, 150):
+        for a in tss:
+            for b in tss:
+                evs = [P(9, a, AVC_SH), P(9, a, AVC_P), P(9, (a + wait) & 0xffffffff, AVC_P), P(9, b, AVC_P), P(8, b, AAC_RAW), P(9, b, AVC_SH)]
+                yield Case("c05.dummy %d 6 %s" % (wait, ";".join(evs)), cls="dummy-ts")
+    for a in tss:
+        for b in tss:
+            yield Case("c05.ts %s" % ";".join(PREAMBLE_AVC[:2] + [P(9, a, AVC_IDR), P(8, a, AAC_RAW), P(8, b, AAC_RAW), P(9, b, AVC_P)]), cls="ts-ts")
+            if a <= b or not quick:
+                yield bcast(ALL_ON + ",da=1,dw=150", [P(9, a, AVC_SH), P(9, a, AVC_IDR)] + JOINS + [P(9, (a + 150) & 0xffffffff, AVC_P), P(9, b, AVC_P), P(9, b, AVC_IDR)], "bcast-ts-dummy")
+    # (6) structured random: mostly valid streams, consumers joining anywhere, random output sets
+    n = 250 if quick else 6000
+    for i in range(n):
+        evs = stream_history(rng)
+        js = list(JOINS)
+        rng.shuffle(js)
+        for j in js[:rng.randrange(0, 6)]:
+            evs.insert(rng.randrange(len(evs) + 1), j)
+        yield bcast(rand_cfg(rng), evs, "bcast-stream")
+        pevs = [e for e in evs if e.startswith("P")]
+        yield Case("c05.ts %s" % ";".join(drop_empty(pevs)), cls="ts-stream")
+        yield Case("c05.rtsp 0 %s" % ";".join(drop_empty(pevs)), cls="rtsp-stream")
+        if i % 3 == 0:
+            yield Case("c05.dummy %d 8 %s" % (rng.choice([0, 100, 150]), ";".join(pevs)), cls="dummy-stream")
+    # (7) mutation stream: hostile histories
+    n = 700 if quick else 20000
+    for i in range(n):
+        evs = rand_history(rng)
+        yield bcast(rand_cfg(rng), evs, "bcast-hostile")
+        if i % 2 == 0:
+            pevs = [e for e in evs if e.startswith("P")]
+            yield Case("c05.ts %s" % ";".join(drop_empty(pevs)), cls="ts-hostile")
+            yield Case("c05.rtsp 0 %s" % ";".join(drop_empty(pevs)), cls="rtsp-hostile")
+        if i % 4 == 0:
+            yield Case("c05.dummy %d 8 %s" % (rng.choice([0, 100, 150]), ";".join(pevs)), cls="dummy-hostile")
